@@ -262,7 +262,7 @@ def gen_doc(rng, *, stratum: str):
     if stratum == "shadow":
         # an id that is a usable Python name but means something in the generated module: a builtin the printed
         # bodies call, a module they reach into
-        pids[0] = rng.choice(SHADOW_IDS)
+        pids[0] = SHADOW_IDS[next(_shadow_turn) % len(SHADOW_IDS)]  # every id in turn, whatever the seed
     params, inits, rules = [], [], []
     const_ps = []
     raw = {}
@@ -514,7 +514,7 @@ def gen_doc(rng, *, stratum: str):
         params.append([a_, "2"])
         params.append([b_, "5"])
         rxns[0]["law"] = ["AST_PLUS", [rxns[0]["law"], ["AST_TIMES", [["ci", a_], ["AST_PLUS", [["ci", b_], ["cn", "1"]]]]]]]
-    if stratum == "shadow" and rng.random() < 0.4:
+    if stratum == "shadow" and next(_shadow_turn2) % 3 == 2:
         # the same for the id of a reaction: its function is defined at module level under that name (F-C17-14)
         rxns[-1]["id"] = rng.choice([i for i in SHADOW_IDS if i != pids[0]])
     finding = {"mixed": "F-C17-4", "srefkw": "F-C17-5", "compkw": "F-C17-6", "idcollide": "F-C17-10",
@@ -1555,11 +1555,12 @@ def setup(ctx):
 def strata(ctx):
     n = ctx.n(1, 32)
     return [("exact", 110 * n), ("float", 60 * n), ("keywords", 40 * n), ("initname", 15 * n), ("mixed", 15 * n),
-            ("srefkw", 12 * n), ("compkw", 6 * n), ("digits", 12 * n), ("gennames", 24 * n), ("rewrite", 20 * n), ("gencollide", 24 * n), ("sparse", 12 * n), ("nearequal", 24 * n), ("idcollide", 6 * n), ("boolnum", 6 * n), ("boundary", 20 * n), ("shadow", 12 * n), ("selfapply", 9 * n)]
+            ("srefkw", 12 * n), ("compkw", 6 * n), ("digits", 12 * n), ("gennames", 24 * n), ("rewrite", 20 * n), ("gencollide", 24 * n), ("sparse", 12 * n), ("nearequal", 24 * n), ("idcollide", 6 * n), ("boolnum", 6 * n), ("boundary", 20 * n), ("shadow", 16 * n), ("selfapply", 9 * n)]
 
 
 #: ids the generated module uses itself: builtins its function bodies call, modules they reach into
 SHADOW_IDS = ["abs", "max", "min", "math"]
+_shadow_turn, _shadow_turn2 = itertools.count(), itertools.count()
 PAIR_STEMS = [("Model-1", "model 1"), ("A", "a"), ("m.v2", "mv2"), ("x", "x"), ("my  model", "my-model")]
 
 
